@@ -461,12 +461,14 @@ theorem onePass_step (st : St ρ) ts outs bb rem (h : st.scopes ≠ []) :
     have hg := hr.trans (ih.genNode _ t.node hr.2.2.1)
     dsimp only
     split
-    · exact hg.trans (ih.onePass _ _ _ _ _ hg.2.2.1)
+    · split
+      · exact hg
+      · split
+        · exact hg.trans (ih.onePass _ _ _ _ _ hg.2.2.1)
+        · exact hg.trans (ih.onePass _ _ _ _ _ hg.2.2.1)
     · split
       · exact hg.trans (ih.onePass _ _ _ _ _ hg.2.2.1)
-      · split
-        · exact hg
-        · exact hg.trans (ih.onePass _ _ _ _ _ hg.2.2.1)
+      · exact hg.trans (ih.onePass _ _ _ _ _ hg.2.2.1)
 
 theorem retry_step (st : St ρ) ts outs bb (h : st.scopes ≠ []) :
     Inv st (Ctl.retry ev (fuel + 1) st ts outs bb).1 := by
